@@ -115,7 +115,11 @@ func vAgree(l *State, c *vCatalog) bool {
 			return false
 		}
 		cs := c.services[id.ID]
-		if cs == nil || cs.Port != s.Service.Port || cs.Service != s.Service.Service {
+		if cs == nil || cs.Port != s.Service.Port || cs.Service != s.Service.Service || cs.EnableTagOverride != s.Service.EnableTagOverride {
+			return false
+		}
+		// tags: the agent's, unless the registration hands them over to the servers (tag override)
+		if !s.Service.EnableTagOverride && !vSameTags(cs.Tags, s.Service.Tags) {
 			return false
 		}
 		n++
@@ -137,6 +141,18 @@ func vAgree(l *State, c *vCatalog) bool {
 	return m == len(c.checks)
 }
 
+func vSameTags(a, b []string) bool {
+	if len(a) != len(b) {
+		return false
+	}
+	for i := range a {
+		if a[i] != b[i] {
+			return false
+		}
+	}
+	return true
+}
+
 func VerifC16_SyncConverges() {
 	l := NewState(Config{NodeName: "n", NodeID: "11111111-2222-3333-4444-555555555555", Datacenter: "dc1"}, hclog.NewNullLogger(), new(token.Store))
 	l.TriggerSyncChanges = func() {}
@@ -145,12 +161,17 @@ func VerifC16_SyncConverges() {
 
 	// local registrations
 	webPort := verifrt.Int("local.web.port", 1, 65535)
+	localTagOverride := false
 	if verifrt.Bool("local.web") {
 		var cks []*structs.HealthCheck
 		if verifrt.Bool("local.web.check") {
 			cks = append(cks, &structs.HealthCheck{Node: "n", CheckID: "c-web", ServiceID: "web", ServiceName: "web", Status: api.HealthPassing})
 		}
-		if err := l.AddServiceWithChecks(vSvc("web", webPort), cks, "", false); err != nil {
+		web := vSvc("web", webPort)
+		web.Tags = []string{"v1"}
+		web.EnableTagOverride = verifrt.Bool("local.web.tag-override")
+		localTagOverride = web.EnableTagOverride
+		if err := l.AddServiceWithChecks(web, cks, "", false); err != nil {
 			panic(err)
 		}
 	}
@@ -167,7 +188,13 @@ func VerifC16_SyncConverges() {
 	// what the catalog holds behind the agent's back (drift)
 	if verifrt.Bool("catalog.web") {
 		// the catalog's copy may have drifted (any port)
-		cat.services["web"] = vSvc("web", verifrt.Int("catalog.web.port", 1, 65535))
+		cw := vSvc("web", verifrt.Int("catalog.web.port", 1, 65535))
+		cw.Tags = []string{"v1"}
+		if verifrt.Bool("catalog.web.tags-drifted") {
+			cw.Tags = []string{"rogue"}
+		}
+		cw.EnableTagOverride = verifrt.Bool("catalog.web.tag-override")
+		cat.services["web"] = cw
 	}
 	if verifrt.Bool("catalog.db") {
 		cat.services["db"] = vSvc("db", 5432)
@@ -201,6 +228,9 @@ func VerifC16_SyncConverges() {
 	if !failed {
 		verifrt.Assert("C16.fault-free-full-sync-succeeds", err1 == nil)
 		verifrt.Assert("C16.fault-free-full-sync-makes-catalog-equal-local", vAgree(l, cat))
+		if ws := l.services[structs.NewServiceID("web", nil)]; ws != nil && !localTagOverride {
+			verifrt.Assert("C16.sync-leaves-the-local-registration-alone", vSameTags(ws.Service.Tags, []string{"v1"}))
+		}
 		verifrt.Reached("converged-first-round")
 		return
 	}
